@@ -206,6 +206,12 @@ func genStageCase(r *h.Rand) h.Case {
 func init() {
 	h.RegisterImpl("forms", func(cmd, meta *sx.Sexp) (*sx.Sexp, string) {
 		paths, files := filesOf(meta)
+		if len(cmd.Xs) > 6 {
+			paths = nil
+			for _, x := range cmd.Xs[6].Xs {
+				paths = append(paths, string(x.B))
+			}
+		}
 		set := newSetFor(files, cmd.Xs[1].A, cmd.Xs[2])
 		out := sx.L(sx.A("forms"))
 		first := ""
@@ -246,7 +252,7 @@ func init() {
 			if first == "" {
 				first, firstSrc = res, files[pth]
 			} else if res != first && oracle == "" {
-				oracle = fmt.Sprintf("spellings of one call disagree: %s gives %q but %s gives %q", firstSrc, clipS(first), files[pth], clipS(res))
+				oracle = fmt.Sprintf("spellings that must be equivalent render %q and %q: %s vs %s", clipS(first), clipS(res), clipS(firstSrc), clipS(files[pth]))
 			}
 		}
 		return out, oracle
